@@ -691,6 +691,8 @@ class VM:
                 )
             ):
                 raise JSTypeError("Right-hand side of instanceof is not callable")
+            # (a bound function stands for its target)
+            constructor = getattr(constructor, "_original_func", constructor)
 
             # Check prototype chain
             if isinstance(obj, JSFunction):
@@ -775,8 +777,9 @@ class VM:
             popped_frame = self.call_stack.pop()
             self._discard_frame_state(popped_frame)
             # For constructor calls, return the new object unless result is an object
+            # (functions are objects too)
             if popped_frame.is_constructor_call:
-                if not isinstance(result, JSObject):
+                if not isinstance(result, (JSObject, JSFunction)):
                     result = popped_frame.new_target
             self.stack.append(result)
 
